@@ -26,6 +26,7 @@ def main():
                 if cfg.plans:
                     cases += [MM.plan_veto_case(rng, cfg, "pv%d" % k) for k in range(ncase // 3)]
                     cases += [MM.reactivation_case(rng, cfg, "ra%d" % k) for k in range(ncase // 4)]
+                    cases += [MM.statusfirst_case(rng, cfg, "sf%d" % k) for k in range(ncase // 3)]
                 cases += [MM.pingpong_case(rng, cfg, "pp%d" % k) for k in range(ncase // 3)]
                 rc, out = C.run_lines([exe], [l for c in cases for l in c], timeout=600)
                 outs = MM.split_cases(out)
